@@ -420,6 +420,28 @@ def strip_early(v):
     return v
 
 
+def split_early(v):
+    """[(guards tuple, value)] if `v` (or an item of the tuple `v`) is an Alt some alternative of which is an early return; None otherwise. Tuple items are
+    combined left to right, and the first early return among them wins (evaluation order)."""
+    def has_early(x):
+        return isinstance(x, Alt) and any(isinstance(l, EarlyRet) for _, l in flat_alts(x))
+    if has_early(v):
+        return flat_alts(v)
+    if isinstance(v, Tup) and any(has_early(x) for x in v.items):
+        out = [((), [])]
+        for x in v.items:
+            nxt = []
+            for gs, done in out:
+                if done and isinstance(done[-1], EarlyRet):
+                    nxt.append((gs, done))
+                    continue
+                for g2, l in (flat_alts(x) if isinstance(x, Alt) else [((), x)]):
+                    nxt.append((gs + tuple(g for g in g2 if g not in gs), done + [l]))
+            out = nxt
+        return [(gs, done[-1] if isinstance(done[-1], EarlyRet) else Tup(done)) for gs, done in out]
+    return None
+
+
 def flat_alts(v, pre=()):
     """[(guards tuple, leaf)] of a possibly nested Alt."""
     if isinstance(v, Alt):
@@ -850,12 +872,11 @@ class Ev:
                     finally:
                         self.loops.pop()
                     rest = self._run_block(e, i + 1, env, depth)
-                    found = Sym("exists", vkey(it.src), vkey(cv))
+                    found = quant("exists", it.src, cv)
                     if isinstance(rest, Sym) and rest.tag[:1] == ("bool",) and rest.tag[1] != lit:
                         if lit == "true":
                             return found
-                        ncv = Sym(*cv.tag[1][1:]) if (isinstance(cv, Sym) and cv.tag[0] == "not" and isinstance(cv.tag[1], tuple) and cv.tag[1][:1] == ("sym",)) else Sym("not", vkey(cv))
-                        return Sym("forall", vkey(it.src), vkey(ncv))
+                        return quant("forall", it.src, Sym("not", vkey(cv)))
                     g = ("if", vkey(found))
                     return Alt([(g, EarlyRet(Sym("bool", lit))), (("not", g), rest)])
                 elif x.get("k") in ("for", "while"):
@@ -885,6 +906,9 @@ class Ev:
                     raise Unsupported("statement-level control flow (%s) at line %s" % (x["k"], x.get("ln")))
                 elif x.get("k") == "mcall" and x["m"] == "clone_from" and x["recv"].get("k") == "path" and x["recv"].get("res") == "local":
                     env[x["recv"]["id"]] = self.eval(x["args"][0], env, depth)
+                elif x.get("k") == "mcall" and x["m"] in MUTATORS and strip_refs(x["recv"]).get("k") == "path" and strip_refs(x["recv"]).get("res") == "local" \
+                        and strip_refs(x["recv"])["id"] in env:
+                    self.exec_stmt(x, env, depth)          # a mutation of a local collection changes what later statements see
                 else:
                     sv = self.eval(x, env, depth)  # evaluated for Unsupported detection; value dropped
                     if isinstance(sv, Sym) and sv.tag and sv.tag[0] == "diverges":
@@ -1154,7 +1178,11 @@ class Ev:
                         return Alt([(log[0][0][0], log[0][1]), (log[1][0][0], log[1][1])])
                     raise Unsupported("a vector filled by push inside a loop, not exactly one push per iteration, at line %s" % x.get("ln"))
                 pushed(Poly.atom("i"))          # fail closed now if the body is not a one-push-per-iteration form
-                env[rid] = Coll(Seq(it.src, pushed))
+                src_ = it.src
+                ks_ = vkey(src_)
+                if isinstance(ks_, tuple) and ks_[:2] == ("sym", "range") and ks_[2] == Poly.const(0).key():
+                    src_ = canon_seq(Seq(src_, it.fn)).src          # one element per index of 0..c.len() is one element per element of c
+                env[rid] = Coll(Seq(src_, pushed))
             return
         if k == "if":
             c = x["c"]
@@ -1212,6 +1240,23 @@ class Ev:
             rid = strip_refs(x["recv"])["id"]
             if x["m"] == "push" and isinstance(env.get(rid), PushLog):
                 env[rid].items.append((tuple(self.guards), self.eval(x["args"][0], env, depth)))
+                return
+            if x["m"] == "extend" and len(x["args"]) == 1 and "Set<" in (x["recv"].get("ty") or ""):
+                # extending a set is inserting each item: `s.extend(opt)` is `if let Some(v) = opt { s.insert(v) }`, and
+                # `s.extend(seq.flat_map(|x| [a, b]))` is `for x in seq { s.insert(a); s.insert(b) }`
+                a = self.eval(x["args"][0], env, depth)
+                if isinstance(a, Sym) and a.tag[:2] == ("ctor", "None"):
+                    return
+                if isinstance(a, Sym) and a.tag[:2] == ("ctor", "Some") and len(a.tag) == 3:
+                    env[rid] = Sym("mut", "insert", vkey(env.get(rid)), (vkey(a.tag[2]),))
+                    return
+                if isinstance(a, Seq) and getattr(a, "groups", None):
+                    cur = env.get(rid)
+                    for item in a.groups[1](Poly.atom("i%d" % len(self.loops))):
+                        cur = Sym("mut", "insert", vkey(cur), (vkey(item),))
+                    env[rid] = cur
+                    return
+                env[rid] = Sym("mut", "extend", vkey(env.get(rid)), (vkey(a),))
                 return
             env[rid] = Sym("mut", x["m"], vkey(env.get(rid)), tuple(vkey(self.eval(a, env, depth)) for a in x["args"]))
             return
@@ -1411,8 +1456,26 @@ class Ev:
             return None
         return None
 
-    def ev_match(self, e, env, depth):
-        scrut = self.eval(e["e"], env, depth)
+    def ev_match(self, e, env, depth, scrut=None):
+        if scrut is None:
+            scrut = self.eval(e["e"], env, depth)
+            cases = split_early(scrut)
+            if cases is not None:
+                # `match (f(a)?, g(b)?) { .. }`: on the alternatives where a `?` returns the function is left; the arms see the remaining ones
+                alts = []
+                for gs, v in cases:
+                    g = gs[0] if len(gs) == 1 else ("all", gs)
+                    if isinstance(v, EarlyRet):
+                        alts.append((g, v))
+                        continue
+                    self.path.extend(gs)
+                    try:
+                        alts.append((g, self.ev_match(e, env, depth, scrut=v)))
+                    except Return as ret:
+                        alts.append((g, EarlyRet(ret.value)))
+                    finally:
+                        del self.path[len(self.path) - len(gs):]
+                return Alt(alts)
         plan = self.plan_arms(e["arms"], scrut, env, depth)
         if len(plan) == 1 and not plan[0][0]:
             return self.eval(plan[0][2], plan[0][1], depth)        # decided structurally
@@ -1713,7 +1776,7 @@ class Ev:
                     body = self.collapse(self.eval(f.body, env2, depth))
                 finally:
                     self.loops.pop()
-                return Sym("forall" if m == "all" else "exists", vkey(recv.src), vkey(body))
+                return quant("forall" if m == "all" else "exists", recv.src, body)
             if m == "fold" and len(args) == 2 and (isinstance(args[1], Clo) or (isinstance(args[1], Sym) and args[1].tag[:1] == ("fn",))):
                 f = args[1]
                 accv = Poly.atom("acc") if isinstance(args[0], Poly) else (operand("acc", args[0].adt) if isinstance(args[0], Rec) and args[0].adt.startswith("dual::dual::Dual") else Sym("acc"))
@@ -1738,6 +1801,19 @@ class Ev:
                     return Sym("repeat", count.key(), vkey(args[0]), vkey(body))      # same canonical form as a counted while loop
                 tag = ("fold", src, vkey(args[0]), vkey(body))
                 return Poly.atom(tag) if isinstance(args[0], Poly) else Sym(*tag)
+            if m == "flat_map" and len(args) == 1 and isinstance(args[0], Clo) and not recv.enumerated:
+                # `seq.flat_map(|x| [a(x), b(x)])`: a fixed group of items per element; consumed by `extend` as that many inserts per element
+                f = args[0]
+                def group(idx, f=f, recv=recv, depth=depth):
+                    env2 = dict(f.env)
+                    self.bind(f.params[0], recv.fn(idx), env2)
+                    g_ = self.collapse(self.eval(f.body, env2, depth))
+                    return g_.items if isinstance(g_, Tup) else None
+                if group(Poly.atom("i")) is not None:
+                    nsrc = Sym("flat_map", vkey(recv.src), tuple(vkey(x_) for x_ in group(Poly.atom("i"))))
+                    sq = Seq(nsrc, lambda idx, nsrc=nsrc: Sym("at", vkey(nsrc), idx.key()))
+                    sq.groups = (recv.src, group)
+                    return sq
             if m == "filter" and len(args) == 1 and isinstance(args[0], Clo):
                 f = args[0]
                 env2 = dict(f.env)
@@ -1803,6 +1879,12 @@ class Ev:
                     return Sym("ctor", "Some", body) if m == "map" else body
             if m == "is_none" and not args:
                 return Sym("bool", "true" if recv.tag[1] == "None" else "false")
+        if ((isinstance(recv, Sym) and recv.tag[:1] != ("ctor",)) or isinstance(recv, Seq)) and m in ("ok_or", "ok_or_else") and len(args) == 1 and \
+                (e["recv"].get("ty") or "").replace("&", "").startswith("std::option::Option<"):
+            # on an opaque Option: the same two paths as `match o { Some(v) => Ok(v), None => Err(e) }`
+            err = self.collapse(self.eval(args[0].body, dict(args[0].env), depth)) if isinstance(args[0], Clo) else args[0]
+            g = ("arm", ("Some", "_"), vkey(recv))
+            return Alt([(g, Sym("ctor", "Ok", Sym("payload", vkey(recv), 0))), (("not", g), Sym("ctor", "Err", err))])
         if any(isinstance(a, Rec) for a in args) and not isinstance(recv, Rec) and self.facts.fn(d) is not None:
             return self.apply_fn(d, [recv] + args, depth)
         if isinstance(recv, Poly) and args and not all(isinstance(a, Poly) for a in args) and self.facts.fn(d) is not None:
@@ -1877,6 +1959,14 @@ class Ev:
             return Seq(nsrc, lambda idx, nsrc=nsrc: Sym("at", vkey(nsrc), idx.key()))
         if isinstance(recv, Arr):
             return Sym("m", m, recv.ident(), tuple(vkey(a) for a in args))
+        if isinstance(recv, Sym) and m in ("map", "and_then") and len(args) == 1 and isinstance(args[0], Clo) and recv.tag[:1] != ("ctor",) and \
+                (e["recv"].get("ty") or "").replace("&", "").startswith("std::result::Result<"):
+            # an opaque Result continues as its Ok payload (the convention of `?`, see ev_try): `r.and_then(f)` is `f(r?)` and `r.map(f)` is `Ok(f(r?))`
+            f = args[0]
+            env2 = dict(f.env)
+            self.bind(f.params[0], recv, env2)
+            body = self.collapse(self.eval(f.body, env2, depth))
+            return body if m == "and_then" else Sym("ctor", "Ok", body)
         if isinstance(recv, Sym) and m in ("map_or", "map", "and_then", "is_some_and") and args and isinstance(args[-1], Clo):
             f = args[-1]
             env2 = dict(f.env)
@@ -1966,6 +2056,16 @@ def canon_seq(seq):
         a, b = poly_from_key(src[2]), poly_from_key(src[3])
         return Seq(Sym("range", Poly.const(0).key(), (b - a).key()), lambda idx, f0=seq.fn, a=a: f0(idx + a), seq.enumerated)
     return seq
+
+
+def quant(kind, src, body):
+    """One spelling for quantified tests: the quantified body is never a negation — `any(|x| !p(x))` is `!all(p)` and `all(|x| !p(x))` is `!any(p)`."""
+    if isinstance(body, Sym) and body.tag[:1] == ("not",) and isinstance(body.tag[1], tuple) and body.tag[1][:1] == ("sym",):
+        inner = Sym(*body.tag[1][1:])
+        if inner.tag[:1] == ("not",) and isinstance(inner.tag[1], tuple) and inner.tag[1][:1] == ("sym",):
+            return quant(kind, src, Sym(*inner.tag[1][1:]))          # !!p
+        return Sym("not", vkey(quant("exists" if kind == "forall" else "forall", src, inner)))
+    return Sym(kind, vkey(src), vkey(body))
 
 
 def guard_value(g):
